@@ -16,6 +16,7 @@ package schemaClient
 
 import (
 	"context"
+	"sort"
 	"strings"
 	"sync"
 
@@ -130,10 +131,21 @@ func (scb *SchemaClientBoundImpl) ToPath(ctx context.Context, path []string) (*s
 		if schemaKeys := schema.GetSchema().GetContainer().GetKeys(); schemaKeys != nil {
 			// add key map
 			newPathElem.Key = make(map[string]string, len(schemaKeys))
-			// adding the keys with the value from path[i], which is the key value
+			// adding the keys with the value from path[i], which is the key value.
+			// The key values appear in the order of the sorted key names (see utils.ToStrings),
+			// which is not necessarily the order the keys are defined in.
+			keyNames := make([]string, 0, len(schemaKeys))
 			for _, k := range schemaKeys {
+				keyNames = append(keyNames, k.Name)
+			}
+			sort.Strings(keyNames)
+			for _, k := range keyNames {
 				i++
-				newPathElem.Key[k.Name] = path[i]
+				if i >= len(path) {
+					// not all the key values are present in the path
+					break
+				}
+				newPathElem.Key[k] = path[i]
 			}
 		}
 	}
